@@ -212,16 +212,31 @@ theorem foldlM_prefix_some {α β} (f : β → α → Option β) (l L : List α)
   | none => rw [hq] at hp; simp at hp
   | some q => exact ⟨q, rfl⟩
 
+/-- only action rows carry node names -/
+theorem namedAct_of_ok {c : CRow} (hf : nodeRowOk c = true) (hnm : c.row.nodeName ≠ []) : isNamedAct c = true := by
+  simp only [nodeRowOk, Bool.or_eq_true] at hf
+  rcases hf with ((h1 | h1) | h1) | h1
+  · simp only [plainActionRow, Bool.and_eq_true, Bool.not_eq_true'] at h1
+    unfold isNamedAct
+    rw [h1.1.1.1]
+    cases hh : c.row.nodeName with
+    | nil => exact absurd hh hnm
+    | cons _ _ => rfl
+  · simp only [switchRow, Bool.and_eq_true, List.isEmpty_iff] at h1; exact absurd h1.1.2 hnm
+  · simp only [fixedRow, Bool.and_eq_true, List.isEmpty_iff] at h1; exact absurd h1.1.2 hnm
+  · simp only [randomRow, Bool.and_eq_true, List.isEmpty_iff] at h1; exact absurd h1.1.2 hnm
+
 /-- a node-producing row -/
 theorem node_row_simN (rows : List CRow) (outF : List OutEdge) (g : Good rows outF) (hsh : noopShape rows outF = true)
     (hFull : ∃ p, outF.foldlM (schedStep rows) [] = some p)
     (M : Maps) (k : Nat) (c : CRow)
-    (hc : rows[k]? = some c) (hf : nodeRowOk c = true) (s : St) (stT stT' : P1) (h : RelN rows M k s stT)
+    (hc : rows[k]? = some c) (hf : nodeRowOk c = true) (hm : (c.merged && isNamedAct c) = false)
+    (s : St) (stT stT' : P1) (h : RelN rows M k s stT)
     (hst : pass1Row stT k (toRRow c) = .ok stT') (hpre : stT'.out.reverse <+: outF) :
     wp (step (toEvent c)) s (fun _ s' => ∃ M', RelN rows M' (k + 1) s' stT') := by
   obtain ⟨st, pnd, h, hs⟩ := h
   have hfacts := rowFacts c hf
-  have hnode := isNodeRow_of_ok c hf
+  have hnode := isNodeRow_of_ok c hf hm
   have hnn := isNoop_false_of_ok c hf
   -- the reference side
   rw [pass1Row_node stT k (toRRow c) hfacts.kind] at hst
@@ -239,7 +254,7 @@ theorem node_row_simN (rows : List CRow) (outF : List OutEdge) (g : Good rows ou
     have hpre1 : stT1.out.reverse <+: outF := by rw [← hst] at hpre; exact hpre
     -- the compiler side
     unfold step toEvent
-    refine wp_parseRow_new c hfacts s _ (fun _ => ?_)
+    refine wp_parseRow_new c hfacts s _ (names_none_of_unmerged g.annot h.names hc hm (namedAct_of_ok hf)) (fun _ => ?_)
     unfold newRow
     wp_simp [wp_addNode, wp_addGrp]
     refine wp_mono (rowAction_exact _ s) ?_
@@ -284,19 +299,23 @@ theorem node_row_simN (rows : List CRow) (outF : List OutEdge) (g : Good rows ou
     unfold addRowId
     have hgrp1 : isNoop c = false → Grp.row [s.nodes.size] c.row.type = .row (M3.nOf k :: (M3.rOf k).toList) c.row.type := by
       intro _; rw [hM3k, hM3r]; rfl
-    have hfinal := fun rowIds ids names hids hlt =>
+    have hnames3 : NamesInv rows M3 (k + 1) ((c.row.nodeName, s.nodes.size) :: s3.names) := by
+      have := r3.names.push hc hnode hnn (namedAct_of_ok hf)
+      rw [hM3k] at this; exact this
+    have hfinal := fun rowIds ids hids hlt =>
       r3.close_row hc hnode (.inl rfl) (fun hh => by
         have := (r3.frel k hh).1; rw [r3.elno k c hc hnn] at this; cases this)
-        (Grp.row [s.nodes.size] c.row.type) hgrp1 (fun hh => by rw [hnn] at hh; cases hh) rowIds ids names hids hlt
+        (Grp.row [s.nodes.size] c.row.type) hgrp1 (fun hh => by rw [hnn] at hh; cases hh) rowIds ids
+        ((c.row.nodeName, s.nodes.size) :: s3.names) hids hlt hnames3
     by_cases hrid : c.row.rowId = []
     · simp only [hrid, List.isEmpty_nil, if_true]
       wp_simp
       refine ⟨M3, { st3 with prev := some k, ids := st3.ids }, pnd3, ?_, ?_⟩
-      · have := hfinal s3.rowIds st3.ids (([], s.nodes.size) :: s3.names) r3.ids
+      · have := hfinal s3.rowIds st3.ids r3.ids
           (fun p hp => by have := r3.idok p hp; exact ⟨by omega, this.2⟩)
         simpa [r3.stack] using this
       · have := hs3.close r3 hc hnn (Grp.row [s.nodes.size] c.row.type)
-          (Grp.block (List.range' 1 (gOf rows k - 1) ++ [s3.groups.size])) s3.rowIds (([], s.nodes.size) :: s3.names) st3.ids
+          (Grp.block (List.range' 1 (gOf rows k - 1) ++ [s3.groups.size])) s3.rowIds ((c.row.nodeName, s.nodes.size) :: s3.names) st3.ids
         rw [← hst]
         have e1 : ({ stT1 with prev := some k, ids := if (toRRow c).rowId.isEmpty then stT1.ids else ((toRRow c).rowId, k) :: stT1.ids } : P1)
             = { stT1 with prev := some k, ids := st3.ids } := by
@@ -307,7 +326,7 @@ theorem node_row_simN (rows : List CRow) (outF : List OutEdge) (g : Good rows ou
       wp_simp
       refine ⟨M3, { st3 with prev := some k, ids := (c.row.rowId, k) :: st3.ids }, pnd3, ?_, ?_⟩
       · have := hfinal ((c.row.rowId, s3.groups.size) :: s3.rowIds) ((c.row.rowId, k) :: st3.ids)
-          (([], s.nodes.size) :: s3.names) (by simp [r3.ids, hsz])
+          (by simp [r3.ids, hsz])
           (fun p hp => by
             simp only [List.mem_cons] at hp
             rcases hp with rfl | hp
@@ -316,7 +335,7 @@ theorem node_row_simN (rows : List CRow) (outF : List OutEdge) (g : Good rows ou
         simpa [r3.stack] using this
       · have := hs3.close r3 hc hnn (Grp.row [s.nodes.size] c.row.type)
           (Grp.block (List.range' 1 (gOf rows k - 1) ++ [s3.groups.size]))
-          ((c.row.rowId, s3.groups.size) :: s3.rowIds) (([], s.nodes.size) :: s3.names) ((c.row.rowId, k) :: st3.ids)
+          ((c.row.rowId, s3.groups.size) :: s3.rowIds) ((c.row.nodeName, s.nodes.size) :: s3.names) ((c.row.rowId, k) :: st3.ids)
         rw [← hst]
         have e1 : ({ stT1 with prev := some k, ids := if (toRRow c).rowId.isEmpty then stT1.ids else ((toRRow c).rowId, k) :: stT1.ids } : P1)
             = { stT1 with prev := some k, ids := (c.row.rowId, k) :: st3.ids } := by
@@ -366,9 +385,14 @@ theorem Sched.skip {rows : List CRow} {M : Maps} {k : Nat} {s : St} {stT st : P1
     exact hs.routed N cN this hcN hnN hel
 
 theorem RelN.skip {rows : List CRow} {M : Maps} {k : Nat} {s : St} {stT : P1} {c : CRow}
-    (h : RelN rows M k s stT) (hc : rows[k]? = some c) (hn : isNodeRow c = false) : RelN rows M (k + 1) s stT := by
+    (h : RelN rows M k s stT) (hc : rows[k]? = some c) (hn : isNodeRow c = false)
+    (hm : (c.merged && isNamedAct c) = false) : RelN rows M (k + 1) s stT := by
   obtain ⟨st, pnd, h, hs⟩ := h
-  exact ⟨st, pnd, h.skip hc hn, hs.skip h hc hn⟩
+  exact ⟨st, pnd, h.skip hc hn hm, hs.skip h hc hn⟩
+
+theorem not_named_of_special {c : CRow} (h : specialTypes.contains c.row.type = true) :
+    (c.merged && isNamedAct c) = false := by
+  unfold isNamedAct; rw [h]; simp
 
 /-- a `hard_exit` / `loose_exit` row -/
 theorem exit_row_simN (rows : List CRow) (outF : List OutEdge) (g : Good rows outF) (hsh : noopShape rows outF = true)
@@ -383,8 +407,9 @@ theorem exit_row_simN (rows : List CRow) (outF : List OutEdge) (g : Good rows ou
     rcases ht with h1 | h1 <;> rw [h1]
     · exact .inl kindOf_hard
     · exact .inr kindOf_loose
+  have hsp : specialTypes.contains c.row.type = true := by rcases ht with h1 | h1 <;> rw [h1] <;> decide
   have hnn : isNodeRow c = false := by
-    unfold isNodeRow; rcases hkind with h1 | h1 <;> rw [h1] <;> rfl
+    rw [isNodeRow_of_special hsp]; rcases hkind with h1 | h1 <;> rw [h1] <;> rfl
   -- the reference side
   have hst2 : addEdges stT k ((dropTrivial c.row.edges).map (fun e => (toREdge e, Target.exit))) = .ok stT' := by
     unfold pass1Row at hst
@@ -406,7 +431,7 @@ theorem exit_row_simN (rows : List CRow) (outF : List OutEdge) (g : Good rows ou
   refine wp_mono (edges_simN rows outF g hsh false k _ Target.exit (fun t ht => by cases ht) rfl _ M s stT stT' st pnd
     h hs hd (fun t ht => by cases ht) hst2 hpre (foldlM_prefix_some _ _ _ _ hpre hFull)) ?_
   intro _ s' ⟨M', st', pnd', _, r, hs', _⟩
-  exact ⟨M', RelN.skip ⟨st', pnd', r, hs'⟩ hc hnn⟩
+  exact ⟨M', RelN.skip ⟨st', pnd', r, hs'⟩ hc hnn (not_named_of_special hsp)⟩
 
 /-- the edges of a `go_to` row, each with its destination -/
 theorem goto_edges_simN (rows : List CRow) (outF : List OutEdge) (g : Good rows outF) (hsh : noopShape rows outF = true)
@@ -511,7 +536,8 @@ theorem goto_row_simN (rows : List CRow) (outF : List OutEdge) (g : Good rows ou
   simp only [gotoRow, Bool.and_eq_true, decide_eq_true_eq] at hf
   obtain ⟨ht, _⟩ := hf
   have hkind : kindOf c.row.type = .goTo := by rw [ht]; exact kindOf_goto
-  have hnn : isNodeRow c = false := by unfold isNodeRow; rw [hkind]; rfl
+  have hsp : specialTypes.contains c.row.type = true := by rw [ht]; decide
+  have hnn : isNodeRow c = false := by rw [isNodeRow_of_special hsp, hkind]; rfl
   have hlenE : ((dropTrivial c.row.edges).map toREdge).length = (dropTrivial c.row.edges).length := by simp
   -- the reference side
   unfold pass1Row at hst
@@ -537,7 +563,7 @@ theorem goto_row_simN (rows : List CRow) (outF : List OutEdge) (g : Good rows ou
     · rename_i tgts hm
       refine wp_mono (goto_edges_simN rows outF g hsh hFull k _ M ds tgts s stT stT' h hlen hm hst hpre) ?_
       intro _ s' ⟨M', r⟩
-      exact ⟨M', r.skip hc hnn⟩
+      exact ⟨M', r.skip hc hnn (not_named_of_special hsp)⟩
   · simp only [hlen, ne_eq, not_false_eq_true, if_true]
     wp_simp
 
